@@ -36,3 +36,12 @@ case "$1" in
  C05b) python3 tools/mutate.py C05 puresnmp/adt.py:Message.__bytes__ puresnmp/adt.py:HeaderData.__bytes__ puresnmp/adt.py:ScopedPDU.__bytes__ puresnmp/adt.py:V3Flags.__bytes__ puresnmp_plugins/security/usm.py:USMSecurityParameters.as_snmp_type puresnmp_plugins/security/usm.py:USMSecurityParameters.__bytes__ puresnmp_plugins/security/usm.py:apply_authentication puresnmp_plugins/security/usm.py:apply_encryption puresnmp/pdu.py:BulkGetRequest.__init__ > mutation/C05b.log 2>&1 ;;
  C12b) python3 tools/mutate.py C12 puresnmp_plugins/security/usm.py:UserSecurityModel.set_engine_timing puresnmp_plugins/security/usm.py:UserSecurityModel.generate_request_message puresnmp_plugins/mpm/v3.py:V3MPM.encode > mutation/C12b.log 2>&1 ;;
 esac
+# round 3: functions put under contract later
+case "$1" in
+ C19c) python3 tools/mutate.py C19 puresnmp/api/pythonic.py:TrapInfo.origin puresnmp/api/pythonic.py:TrapInfo.uptime puresnmp/api/pythonic.py:TrapInfo.oid puresnmp/api/pythonic.py:TrapInfo.values puresnmp/varbind.py:PyVarBind.from_raw > mutation/C19c.log 2>&1 ;;
+ C08c) python3 tools/mutate.py C08 puresnmp/exc.py:ErrorResponse.construct puresnmp/exc.py:ErrorResponse.__init__ > mutation/C08c.log 2>&1 ;;
+ C05c) python3 tools/mutate.py C05 puresnmp/pdu.py:PDU.encode_raw puresnmp/pdu.py:BulkGetRequest.__init__ puresnmp/pdu.py:BulkGetRequest.__bytes__ puresnmp/api/raw.py:Client._bulkwalk_fetcher puresnmp/api/raw.py:Client.bulkwalk puresnmp/adt.py:HeaderData.as_snmp_type puresnmp/adt.py:ScopedPDU.as_snmp_type > mutation/C05c.log 2>&1 ;;
+ C03c) python3 tools/mutate.py C03 puresnmp/api/raw.py:Client.table puresnmp/api/raw.py:Client.bulktable puresnmp/api/raw.py:Client.walk puresnmp/api/raw.py:Client.bulkwalk > mutation/C03c.log 2>&1 ;;
+ C20c) python3 tools/mutate.py C20 puresnmp_plugins/security/usm.py:USMSecurityParameters.from_snmp_type puresnmp_plugins/security/usm.py:UserSecurityModel.send_discovery_message puresnmp/transport.py:send_udp > mutation/C20c.log 2>&1 ;;
+ C09c) python3 tools/mutate.py C09 puresnmp_plugins/security/usm.py:UserSecurityModel.process_incoming_message puresnmp_plugins/security/usm.py:validate_usm_message > mutation/C09c.log 2>&1 ;;
+esac
